@@ -13,6 +13,7 @@ import ast
 import contextlib
 import io
 import struct
+import sys
 
 from harness.lib import extract as X
 from harness.lib.common import ExtractError, exc_enum, hexs
@@ -132,6 +133,19 @@ def extract(ctx):
     g.strings('writeChunkAugs', _augs(f))
     g.strings('writeHeader', _calls(f, '.set_header'))
     g.strings('writeSend', _calls(f, '.send_packet'))
+    def order_of(fn, keys):
+        out = []
+        for n in fn.body:
+            t = ast.unparse(n)
+            for k_ in keys:
+                if k_ in t:
+                    out.append(k_)
+        return out
+    g.strings('writeChunkOrder', order_of(f, ['self._data = self._data[new_len:]', 'self.cf.send_packet(', 'self._addr_add = len(data)',
+                                              'self._bytes_left -= self._addr_add']))
+    g.strings('readChunkOrder', order_of(X.find(rr, '_request_new_chunk'), ['struct.pack(', 'self.cf.send_packet(']))
+    g.strings('addDataOrder', order_of(X.find(rr, 'add_data'), ['self.data += data', 'self._bytes_left -= data_len',
+                                                                'self._current_addr += data_len', 'self._request_new_chunk()']))
     f = X.find(wr, 'write_done')
     g.strings('writeDoneCompares', X.compares(f))
     g.strings('writeDoneAugs', _augs(f))
@@ -160,6 +174,9 @@ def extract(ctx):
     create = [n for n in ast.walk(f) if isinstance(n, ast.If) and ast.unparse(n.test) == 'memory.id not in self._write_requests']
     X.expect(len(create) == 1, 'Memory.write: queue creation test not found')
     g.raw('def writeCreateInsideLock : Bool := %s' % ('true' if w is not None and _inside(create[0], w, par) else 'false'))
+    starts = [n for n in ast.walk(f) if isinstance(n, ast.Call) and ast.unparse(n.func) == 'wreq.start']
+    X.expect(len(starts) == 1, 'Memory.write: expected one wreq.start() call')
+    g.raw('def writeStartInsideLock : Bool := %s' % ('true' if w is not None and _inside(starts[0], w, par) else 'false'))
     g.strings('memWriteCompares', X.compares(f))
     g.strings('memWriteAssigns', [s.replace('\n', ' ') for s in _assign_texts(f)])
     g.strings('memWriteCalls', _calls(f, '.append') + _calls(f, '.start'))
@@ -167,6 +184,7 @@ def extract(ctx):
     sig = [a.arg for a in f.args.args] + ['%s' % ast.unparse(d) for d in f.args.defaults]
     g.strings('memWriteSig', sig)
     f = X.find(mem, 'read')
+    g.strings('memReadOrder', [ast.unparse(n) for n in f.body if not (isinstance(n, ast.Expr) and isinstance(n.value, ast.Constant)) and not isinstance(n, ast.If)])
     g.strings('memReadCompares', X.compares(f))
     g.strings('memReadAssigns', _assign_texts(f))
     g.strings('memReadReturns', [ast.unparse(n) for n in ast.walk(f) if isinstance(n, ast.Return)])
@@ -416,7 +434,7 @@ class RealMem:
     def __init__(self):
         memmod, CRTPPacket, Caller = _lib()
         self.CRTPPacket = CRTPPacket
-        outs = self.outs = []
+        outs = self.outs = self._make_outs()
         real = self
 
         class FakeCF:
@@ -443,8 +461,12 @@ class RealMem:
         self.sent = []
         self.cf = FakeCF()
         self.mem = memmod.Memory(self.cf)
+        self.lock_kind = type(self.mem._write_requests_lock)      # the code's kind of lock (Lock / RLock)
         self.mem._write_requests_lock = CheckedLock()
         self._hook()
+
+    def _make_outs(self):
+        return []
 
     def _hook(self):
         m, outs = self.mem, self.outs
@@ -620,6 +642,495 @@ class RealDeck(RealMem):
         return RealMem.line(self, ws)
 
 
+# =====================================================================================================
+# the calling thread statement by statement, the incoming thread in between (round 4)
+# =====================================================================================================
+class _RoutedOuts(list):
+    """what a thread of a StepMem run does is recorded in that thread's own buffer"""
+
+    def append(self, x):
+        import threading
+        buf = getattr(threading.current_thread(), 'outs_buf', None)
+        (buf if buf is not None else super()).append(x)
+
+
+class ObservedLock:
+    """the code's own kind of lock (threading.Lock / RLock), really blocking, but observable: a thread that finds it
+    taken reports that it is waiting, and goes on waiting for the lock when the driver lets it run again"""
+
+    def __init__(self, inner, owner):
+        self._l, self.owner, self.depth, self.holder = inner, owner, 0, None
+
+    def acquire(self, blocking=True, timeout=-1):
+        import threading
+        if not self._l.acquire(False):
+            if not blocking:
+                return False
+            self.owner._waiting(threading.current_thread())
+            self._l.acquire()
+        self.depth += 1
+        self.holder = threading.current_thread()
+        self.owner._lock_event(self.holder, 'acquired', self.depth)
+        return True
+
+    def release(self):
+        h = self.holder
+        self.depth -= 1
+        if self.depth == 0:
+            self.holder = None
+        self._l.release()
+        self.owner._lock_event(h, 'released', self.depth)
+
+    def locked(self):
+        return self.depth > 0
+
+    def __enter__(self):
+        return self.acquire()
+
+    def __exit__(self, *a):
+        self.release()
+
+
+class StepMem(RealMem):
+    """the real Memory object + the simulated device, with the application call run LINE BY LINE (sys.settrace in its
+    own thread, lines of Memory.write / Memory.read / start / _write_new_chunk / _request_new_chunk) and, additionally,
+    stopped inside cf.send_packet before it returns; at every stop the incoming thread (another real thread) may be
+    given replies in flight - it really blocks on _write_requests_lock when the caller holds it.  Handshakes by events
+    only (no sleeps); a reply to a packet sent by the incoming thread's own handler waits until that handler is done
+    (cflib has one incoming thread).  Every stop / delivery is also written down as a line for the Lean driver:
+      cwrite / cread ...   the call begins                      csteps <k>   the caller's next k model statements
+      cpkt <chan> <hex>    the incoming thread is given a packet ('blocked': it waits for the lock)
+      cend                 the call has returned"""
+
+    STUCK = 20.0        # fail-safe for a harness bug only; never reached in a correct run (no timing dependence)
+
+    def __init__(self, dev):
+        import threading
+        RealMem.__init__(self)
+        self.threading = threading
+        self.dev = dev
+        self.lock = ObservedLock(self.lock_kind(), self)
+        self.mem._write_requests_lock = self.lock
+        self.inflight = []
+        self.lines, self.replies = ['creset'], ['ok']
+        self.app = None            # the application call in progress
+        self.blocked = None        # the incoming thread, waiting for the lock
+        self.problems = []
+        self.tag = 0
+        memmod = sys.modules['cflib.crazyflie.mem']
+        fns = [memmod.Memory.write, memmod.Memory.read, memmod._WriteRequest.start, memmod._WriteRequest._write_new_chunk,
+               memmod._ReadRequest.start, memmod._ReadRequest._request_new_chunk]
+        self.traced = {f.__code__: f.__qualname__ for f in fns}
+        inner = self.cf.send_packet
+
+        def send_packet(pk, *a, **kw):
+            inner(pk, *a, **kw)
+            self._after_send()
+        self.cf.send_packet = send_packet
+
+    def _make_outs(self):
+        return _RoutedOuts()
+
+    # ---- observations -------------------------------------------------------------------------------
+    def _after_send(self):
+        t = self.threading.current_thread()
+        for chan, data in self.sent:
+            for (_, c, d) in self.dev.handle(4, chan, data):
+                self.inflight.append((c, bytes(d)))
+        del self.sent[:]
+        if t is self.app:
+            t.mile('sent')
+            t.stop('in send_packet')
+
+    def _waiting(self, t):
+        if getattr(t, 'is_delivery', False):
+            t.was_blocked = True
+            t.rest.set()
+            t.go.wait(self.STUCK)
+            t.go.clear()
+            return
+        raise Hang()       # the application thread itself would wait for ever: nobody else holds the lock legitimately
+
+    def _lock_event(self, t, what, depth):
+        if t is self.app and t is not None:
+            if what == 'acquired' and depth == 1:
+                t.mile('locked')
+            if what == 'released' and depth == 0:
+                t.mile('released')
+
+    # ---- the application call -----------------------------------------------------------------------
+    def begin(self, kind, mid, addr, arg, flush=False, prog=False):
+        """start mem.write / mem.read in its own traced thread; it stops before its first line"""
+        import linecache
+        self.tag += 1
+        tag, sm, threading = self.tag, self, self.threading
+        proxy = MemProxy(mid, tag)
+
+        class App(threading.Thread):
+            def __init__(self):
+                threading.Thread.__init__(self, daemon=True)
+                self.outs_buf, self.rest, self.resume = [], threading.Event(), threading.Event()
+                self.kind, self.id = kind, mid
+                self.miles, self.reported, self.where, self.finished, self.res = [], 0, None, False, None
+                self.last = {}
+
+            def mile(self, m):
+                self.miles.append(m)
+
+            def stop(self, where):
+                self.where = where
+                self.rest.set()
+                self.resume.wait(sm.STUCK)
+                self.resume.clear()
+
+            def local(self, frame, event, arg):
+                key = id(frame)
+                done = self.last.get(key)
+                if done is not None and event in ('line', 'return'):
+                    if done == 'self._data = self._data[new_len:]':
+                        self.mile('cut')
+                    if done == 'self._bytes_left -= self._addr_add':
+                        self.mile('booked')
+                    if done == 'self._read_requests[memory.id] = rreq':
+                        self.mile('registered')
+                if event == 'line':
+                    text = linecache.getline(frame.f_code.co_filename, frame.f_lineno).strip()
+                    if sm.traced[frame.f_code] == 'Memory.read' and 'checked' not in self.miles and \
+                            not text.startswith('if memory.id in self._read_requests'):
+                        self.mile('checked')        # `if memory.id in self._read_requests` has been evaluated
+                    self.last[key] = text
+                    self.stop('%s: %s' % (sm.traced[frame.f_code], text))
+                elif event == 'return':
+                    self.last.pop(key, None)
+                return self.local
+
+            def tracer(self, frame, event, arg):
+                return self.local if frame.f_code in sm.traced else None
+
+            def run(self):
+                def cb(msg, pct):
+                    sm.outs.append('P:%d:%d' % (tag, pct) + ('' if msg == 'Writing to memory' else '!msg=' + msg))
+                sys.settrace(self.tracer)
+                try:
+                    if kind == 'w':
+                        r = sm.mem.write(proxy, addr, bytearray(arg), flush_queue=bool(flush), progress_cb=cb if prog else None)
+                    else:
+                        r = sm.mem.read(proxy, addr, arg)
+                    self.res = 'T' if r is True else 'F' if r is False else 'R:%r' % (r,)
+                except Hang:
+                    self.res = 'H'
+                except Exception as e:
+                    self.res = 'E:' + exc_enum(e)
+                finally:
+                    sys.settrace(None)
+                    self.finished = True
+                    self.rest.set()
+
+        self.app = App()
+        if kind == 'w':
+            self._line('cwrite %d %d %d %s %d %d' % (tag, mid, addr, hexs(arg), flush, prog), 'ok')
+        else:
+            self._line('cread %d %d %d %d' % (tag, mid, addr, arg), 'ok')
+        self.app.start()
+        self._wait(self.app)
+        return tag
+
+    def _wait(self, t):
+        if not t.rest.wait(self.STUCK):
+            self.problems.append('harness: thread did not come to rest')
+        t.rest.clear()
+
+    def _line(self, line, reply):
+        self.lines.append(line)
+        self.replies.append(reply)
+
+    def _steps_done(self):
+        """how many statements of the model the caller has executed (from what was observed of the real call)"""
+        a = self.app
+        if a.kind == 'w':
+            order = ['locked', 'cut', 'sent', 'booked', 'released']
+        else:
+            order = ['checked', 'registered', 'sent']
+        n = 0
+        for m in a.miles:
+            if m in order:
+                n += 1
+        if a.kind == 'r' and a.finished and a.res == 'F' and n == 0:
+            n = 1          # `return False`: the check was the only statement
+        return n
+
+    def report(self):
+        """write down the caller's progress since the last report"""
+        a = self.app
+        n = self._steps_done()
+        if n > a.reported:
+            outs = ';'.join(a.outs_buf) or '-'
+            del a.outs_buf[:]
+            self._line('csteps %d' % (n - a.reported), '%s L%d' % (outs, 1 if self.lock.locked() else 0))
+            a.reported = n
+
+    def advance(self):
+        """let the caller run to its next stop; False when the call has returned"""
+        a = self.app
+        if a.finished:
+            return False
+        a.resume.set()
+        self._wait(a)
+        if a.finished:
+            a.join(self.STUCK)
+            self.report()
+            self._line('cend', a.res)
+            if self.blocked is not None:
+                self.resume_blocked()
+            return False
+        return True
+
+    def in_read_window(self, c, d):
+        """between registering a read request and sending its packet no reply for that memory is in flight (A1)"""
+        a = self.app
+        return (a is not None and not a.finished and a.kind == 'r' and 'registered' in a.miles and 'sent' not in a.miles
+                and c == 1 and d[:1] == bytes([a.id & 0xFF]))
+
+    # ---- the incoming thread ------------------------------------------------------------------------
+    def deliver(self, i=0, keep=False):
+        """hand reply i in flight to the incoming thread (a fresh thread per packet, one at a time); returns the reply
+        string, or 'blocked'"""
+        if self.blocked is not None:
+            return None
+        c, d = self.inflight[i] if keep else self.inflight.pop(i)
+        if self.app is not None and not self.app.finished:
+            self.report()
+        sm, threading = self, self.threading
+        pk = self.CRTPPacket()
+        pk.set_header(4, c)
+        pk.data = bytes(d)
+
+        class Delivery(threading.Thread):
+            is_delivery = True
+
+            def __init__(self):
+                threading.Thread.__init__(self, daemon=True)
+                self.outs_buf, self.rest, self.go = [], threading.Event(), threading.Event()
+                self.was_blocked, self.finished, self.res, self.pkt = False, False, None, (c, d)
+
+            def run(self):
+                try:
+                    r = sm.cf.port_cb(pk)
+                    self.res = 'N' if r is None else 'R:%r' % (r,)
+                except Hang:
+                    self.res = 'H'
+                except Exception as e:
+                    self.res = 'E:' + exc_enum(e)
+                self.finished = True
+                self.rest.set()
+
+        t = Delivery()
+        t.start()
+        self._wait(t)
+        return self._delivered(t)
+
+    def _delivered(self, t):
+        c, d = t.pkt
+        if not t.finished:
+            self.blocked = t
+            self._line('cpkt %d %s' % (c, hexs(d)), 'blocked')
+            return 'blocked'
+        t.join(self.STUCK)
+        self.blocked = None
+        r = '%s %s L%d' % (t.res, ';'.join(t.outs_buf) or '-', 1 if self.lock.locked() else 0)
+        self._line('cpkt %d %s' % (c, hexs(d)), r)
+        return r
+
+    def resume_blocked(self):
+        """the lock is free again: the incoming thread goes on"""
+        t = self.blocked
+        if t is None or self.lock.locked():
+            return None
+        if self.app is not None and not self.app.finished:
+            self.report()
+        t.go.set()
+        self._wait(t)
+        return self._delivered(t)
+
+    def locked(self):
+        return self.lock.locked()
+
+
+STEP_KEY = 'interleaving'
+
+
+class StepScenario:
+    """One application call run line by line on the real Memory (StepMem) with the incoming thread given the replies in
+    flight at the chosen stops; before it, complete calls that leave replies in flight.  Afterwards everything is
+    delivered and the property is evaluated (spec twin): device image, exactly one notification, read data, lock."""
+
+    def __init__(self, rng, desc):
+        self.rng, self.desc = rng, desc
+        self.dev = make_device(rng)
+        self.base = [bytes(m.data) for m in self.dev.mems]
+        self.sm = StepMem(self.dev)
+        self.reqs = []
+        self.bad = []
+
+    def pump(self, limit=40):
+        sm = self.sm
+        if sm.blocked is not None:
+            if sm.lock.locked():
+                return
+            sm.resume_blocked()
+        n = 0
+        while sm.blocked is None and n < limit:
+            i = next((j for j, (c, d) in enumerate(sm.inflight) if not sm.in_read_window(c, d)), None)
+            if i is None:
+                break
+            sm.deliver(i)
+            n += 1
+
+    def call(self, kind, mid, addr, arg, stops, flush=False, prog=False):
+        """stops: 'all' | 'send' (inside send_packet only: the synchronous link) | a set of stop indices"""
+        sm = self.sm
+        tag = sm.begin(kind, mid, addr, arg, flush, prog)
+        k = 0
+        while True:
+            here = stops == 'all' or (stops == 'send' and sm.app.where == 'in send_packet') or (not isinstance(stops, str) and k in stops)
+            if here:
+                self.pump()
+            elif sm.blocked is not None and not sm.lock.locked():
+                sm.resume_blocked()
+            k += 1
+            if not sm.advance():
+                break
+        self.reqs.append({'tag': tag, 'kind': kind, 'id': mid, 'addr': addr, 'arg': arg, 'res': sm.app.res, 'stops': k,
+                          'snapshot': bytes(self.dev.mems[mid].data)})
+        return tag
+
+    def finish(self):
+        g = 0
+        while (self.sm.inflight or self.sm.blocked is not None) and g < 60:
+            self.pump(400)
+            g += 1
+
+    def evaluate(self):
+        """-> list of (what, details) the property forbids"""
+        sm, out = self.sm, []
+        outs = [o for r in sm.replies for o in (r.split(' ')[1] if r[:1] in 'NEH' and ' ' in r else r.split(' ')[0]).split(';')]
+        for p_ in sm.problems:
+            out.append((p_, {}))
+        if sm.lock.locked():
+            out.append(('_write_requests_lock is held although no call into Memory is executing', {}))
+        for r in sm.replies:
+            if r[:2] in ('E:', 'H ') or r == 'H':
+                out.append(('a call into Memory raised / would block for ever', {'reply': r}))
+        img = [bytearray(b) for b in self.base]
+        for rq in self.reqs:
+            notes = [o for o in outs if o.split(':')[0] in ('RO', 'RF', 'WO', 'WF') and o.split(':')[1] == str(rq['tag'])]
+            if rq['res'] != 'T':
+                if notes:
+                    out.append(('a rejected request was notified', {'tag': rq['tag'], 'notes': notes}))
+                continue
+            want = 'WO' if rq['kind'] == 'w' else 'RO'
+            if [n[:2] for n in notes] != [want]:
+                out.append(('an accepted request (no error status, no link loss) was not notified exactly once with success',
+                            {'tag': rq['tag'], 'notes': notes}))
+            if rq['kind'] == 'w':
+                img[rq['id']][rq['addr']:rq['addr'] + len(rq['arg'])] = rq['arg']
+            elif notes and notes[0][:2] == 'RO':
+                got = notes[0].split(':')[4]
+                got = b'' if got == '-' else bytes.fromhex(got)
+                if got != rq['snapshot'][rq['addr']:rq['addr'] + rq['arg']]:
+                    out.append(('a successful read returned bytes that differ from the device memory', {'tag': rq['tag']}))
+        for i, m in enumerate(self.dev.mems):
+            if bytes(m.data) != bytes(img[i]):
+                diff = [j for j in range(len(img[i])) if m.data[j] != img[i][j]]
+                out.append(('device memory differs from the data of the writes that were reported as successful',
+                            {'memory': i, 'first_difference_at': diff[0], 'bytes_differing': len(diff),
+                             'device': hexs(bytes(m.data[diff[0]:diff[0] + 8])), 'expected': hexs(bytes(img[i][diff[0]:diff[0] + 8]))}))
+        return out
+
+
+def step_scenarios(rng, thorough):
+    """systematic: every boundary length, the replies offered at every single stop of the call (the stop inside
+    send_packet - the synchronous link - included), at all stops, with other requests' replies in flight"""
+    res = []
+
+    def mk(desc, build):
+        sc = StepScenario(rng, desc)
+        build(sc)
+        sc.finish()
+        res.append(sc)
+        return sc
+
+    def data(n):
+        return bytes(rng.randrange(256) for _ in range(n))
+
+    wl = WRITE_LENS[:9] if thorough else [1, 25, 26, 51]
+    rl = READ_LENS[:9] if thorough else [0, 20, 21, 41]
+    # how many stops does a call have?  (measured on the code as it is, so new lines are covered automatically)
+    probe = mk({'kind': 'probe'}, lambda sc: (sc.call('w', 2, 7, data(26), ()), sc.call('r', 1, 5, 21, ())))
+    nw, nr = probe.reqs[0]['stops'], probe.reqs[1]['stops']
+    for n in wl:
+        d = data(n)
+        mk({'kind': 'write', 'len': n, 'replies_at': 'inside send_packet (synchronous link)'}, lambda sc: sc.call('w', 2, 7, d, 'send'))
+        mk({'kind': 'write', 'len': n, 'replies_at': 'every stop'}, lambda sc: sc.call('w', 2, 7, d, 'all', prog=n == 26))
+    for k in range(nw):
+        for prelude in (None, 'read', 'write', 'queued'):
+            if not thorough and prelude is not None and k % 3 != 1:
+                continue
+            d = data(51)
+
+            def build(sc):
+                if prelude == 'read':
+                    sc.call('r', 1, 5, 45, ())
+                if prelude == 'write':
+                    sc.call('w', 0, 3, data(30), ())
+                if prelude == 'queued':
+                    sc.call('w', 2, 90, data(30), ())
+                sc.call('w', 2, 7, d, {k})
+            mk({'kind': 'write', 'len': 51, 'replies_at_stop': k, 'in_flight_before': prelude}, build)
+    for n in rl:
+        mk({'kind': 'read', 'len': n, 'replies_at': 'inside send_packet (synchronous link)'}, lambda sc: sc.call('r', 1, 5, n, 'send'))
+        mk({'kind': 'read', 'len': n, 'replies_at': 'every stop'}, lambda sc: sc.call('r', 1, 5, n, 'all'))
+    for k in range(nr):
+        for prelude in (None, 'read', 'write', 'busy'):
+            if not thorough and prelude is not None and k % 3 != 1:
+                continue
+
+            def build(sc):
+                if prelude == 'read':
+                    sc.call('r', 0, 9, 45, ())
+                if prelude == 'write':
+                    sc.call('w', 2, 3, data(30), ())
+                if prelude == 'busy':
+                    sc.call('r', 1, 60, 30, ())
+                sc.call('r', 1, 5, 41, {k})
+            mk({'kind': 'read', 'len': 41, 'replies_at_stop': k, 'in_flight_before': prelude}, build)
+    return res
+
+
+def step_random(rng):
+    """a few calls in a row, each with a random set of stops at which the replies in flight are offered"""
+    sc = StepScenario(rng, {'kind': 'random'})
+    used_w = set()
+    for _ in range(rng.choice([1, 2, 3, 4])):
+        stops = rng.choice(['all', 'send', set(rng.sample(range(32), rng.randrange(0, 6)))])
+        if rng.random() < 0.6:
+            mid = rng.choice([0, 2])
+            n = rng.choice(WRITE_LENS[1:9])
+            # non-overlapping ranges per memory, so that the expected image does not depend on the completion order
+            slot = next((x for x in range(3) if (mid, x) not in used_w), None)
+            if slot is None or 50 * slot + n > MEM_SIZE:
+                continue
+            used_w.add((mid, slot))
+            sc.call('w', mid, 50 * slot + rng.randrange(0, 50 - min(n, 49) + (0 if n < 50 else 0)) if n < 50 else 50 * slot,
+                    bytes(rng.randrange(256) for _ in range(n)) if 50 * slot + n <= MEM_SIZE else b'\x01', stops,
+                    flush=False, prog=rng.random() < 0.2)
+        else:
+            sc.call('r', 1, rng.randrange(0, 60), rng.choice(READ_LENS[:9]), stops)
+    sc.desc['calls'] = [(r['kind'], r['id'], r['addr'], len(r['arg']) if r['kind'] == 'w' else r['arg']) for r in sc.reqs]
+    sc.finish()
+    return sc
+
+
 def probe_variant():
     """which lock discipline does the real code have? (behavioural probe; cross-checked against Gen by Tie A)
     -> (d9_fixed, d17_fixed)"""
@@ -652,6 +1163,8 @@ REQUIRED_THEOREMS = ['CfVerif.C06.' + t for t in (
     'deck_read_record_must_always_be_cleared', 'gen_expected_reply', 'retransmissions_only_of_outstanding_chunks',
     'no_retransmission_pending_after_completion', 'device_answer_cancels_its_entry', 'retransmitted_write_is_idempotent',
     'wrong_pattern_outlives_request_counterexample',
+    'gen_conc_discipline', 'every_interleaving_is_atomic', 'every_schedule_is_an_atomic_history', 'write_exact_every_schedule',
+    'read_exact_every_schedule', 'start_outside_lock_counterexample', 'code_blocks_early_ack',
     'd9_lock_left_held', 'd9_wedged')]
 TRUSTED = ['harness/corr/c06.py extractor + correspondence (fake `cf` boundary object: add_port_callback, disconnected, send_packet with the '
            'size check of Crazyflie.send_packet; CheckedLock turns a blocking acquire of a held lock into `hang`; one MemProxy object per '
@@ -661,7 +1174,11 @@ TRUSTED = ['harness/corr/c06.py extractor + correspondence (fake `cf` boundary o
            'cross-checked against harness/sim/crazyflie_device.py in the spec-twin search',
            "struct '<BIB' '<BI' '<IB' '<BBBBB' as modelled in Base/Struct (little endian, range errors raise)",
            'threading.Lock semantics: acquire on a held lock blocks forever in a single-threaded history; `with` releases on exceptions',
-           'Python dict insertion order = order of the failure callbacks on disconnect']
+           'Python dict insertion order = order of the failure callbacks on disconnect',
+           'statement-level model (round 4): one source statement / one bytecode-level access of the shared request records is atomic (GIL); '
+           'the split of write()/_write_new_chunk()/read() into model statements follows the assignments to shared fields (pinned: Gen '
+           'writeChunkOrder, readChunkOrder, addDataOrder, memReadOrder, writeStartInsideLock); StepMem (sys.settrace line stepping in the '
+           "calling thread, ObservedLock = the code's own lock kind that reports waiting threads) is search/correspondence machinery"]
 ASSUMPTIONS = ['A1 (freshness, data-exactness theorems only): no reply belonging to an already notified request is delivered later; duplicates, '
                'delays and reordering within a request are unrestricted. Necessary: Props stale_reply_counterexample (the protocol has no '
                'request identity). The bookkeeping theorems (lock, exactly-one notification, order, records) hold for ARBITRARY packets.',
@@ -674,6 +1191,13 @@ ASSUMPTIONS = ['A1 (freshness, data-exactness theorems only): no reply belonging
                'one event (API call / packet handler / disconnect handler) is atomic: with the repaired lock discipline all accesses to '
                '_write_requests happen inside critical sections; _read_requests has no lock - two threads racing on it (e.g. the disconnect '
                'handler running concurrently with the final read reply) are outside the model',
+               'interleaving theorems (round 4): ONE application thread calls into Memory at a time and ONE incoming thread handles packets '
+               '(cflib: _IncomingPacketHandler), each handler atomic w.r.t. the other handlers; the two threads interleave at statement '
+               'granularity. Between `self._read_requests[id] = rreq` and the send of its first packet no reply for memory id is in flight '
+               '(A1 + the device answers only what it received) and a link loss inside that window, or while write() holds the lock, is '
+               'treated as happening after the call (the disconnect callback is modelled as one step that waits for the lock). A reply '
+               'dispatched synchronously on the CALLING thread (re-entering the RLock) and two application threads racing in read() are '
+               'outside the model',
                'user callbacks do not raise (Caller.call would abort the remaining subscribers); requests issued while no link is open are '
                'outside the property; refresh()/info channel, DeckMemoryManager address mapping and progress texts are not modelled',
                "progress percentage: int(100*a/b) modelled as floor division (exact for transfer lengths < 2^45)"]
@@ -684,8 +1208,11 @@ RULE = ('cases = whole histories driven adaptively on the REAL Memory object and
         'the whole session, forged error statuses and addresses, truncated / empty / other-channel packets, disconnect at random positions; '
         'plus MemoryTester client histories (read_data / write_data / validation) and, in the search, spec-twin scenarios (fair network with '
         'dup/reorder/error/drop-at-k) and the real Crazyflie + SimLink stack. After EVERY step the call result (return / exception class / '
-        'hang), the packets sent, the callbacks invoked (with request tag) and the lock state are compared. distinct+non-trivial = distinct '
-        'history (op lines)')
+        'hang), the packets sent, the callbacks invoked (with request tag) and the lock state are compared. Round 4: the application call '
+        'run LINE BY LINE in its own thread (StepMem) with the replies in flight handed to a second real thread at one chosen stop / at '
+        'every stop / inside cf.send_packet before it returns (synchronous link), for every boundary length, with replies of other '
+        'reads / writes / a queued write in flight; compared: what the caller did up to each stop, whether the incoming thread had to wait '
+        "for the lock ('blocked'), what each handler did, lock state, call result. distinct+non-trivial = distinct history (op lines)")
 
 READ_LENS = [0, 1, 19, 20, 21, 39, 40, 41, 59, 60, 61, 100]
 WRITE_LENS = [0, 1, 24, 25, 26, 49, 50, 51, 74, 75, 76, 100]
@@ -1041,6 +1568,8 @@ def corpus_histories(rng):
 
 
 def classify(reply, counts):
+    if reply == 'blocked':
+        counts('incoming-thread-waits-for-lock')
     f = reply.split(' ')
     if len(f) < 3:
         return
@@ -1079,6 +1608,15 @@ def correspond(ctx):
         hs.append(tester_history(rng, rng.choice([6, 15, 40])))
     for k in range(6000 if thorough else 150):
         hs.append(deck_history(rng, rng.choice([6, 15, 40])))
+    # the calling thread line by line, the incoming thread in between (StepMem): same protocol, own ops
+    steps = step_scenarios(rng, thorough)
+    for k in range(3000 if thorough else 40):
+        steps.append(step_random(rng))
+    ctx.count('histories:interleaved', len(steps))
+    for sc in steps:
+        hs.append(sc.sm)
+        for p_ in sc.sm.problems:
+            ctx.disagree('interleaved-run', {'scenario': sc.desc}, 'a run that comes to rest', p_)
     lines = [l for h in hs for l in h.lines]
     model = ctx.lean(DRIVER, lines)
     pos = 0
@@ -1730,6 +2268,31 @@ def client_search(ctx):
     return False
 
 
+def interleaving_search(ctx):
+    """the property on the real code with the application call run line by line and the replies handled by another
+    thread in between (at one stop, at every stop, inside send_packet = synchronous link); judged by the spec twin"""
+    rng = ctx.rng
+    thorough = ctx.tier == 'thorough'
+    scs = step_scenarios(rng, thorough)
+    for k in range(4000 if thorough else 60):
+        scs.append(step_random(rng))
+    found = []
+    for sc in scs:
+        ctx.count('search:interleaved')
+        ev = sc.evaluate()
+        if ev:
+            found.append((0 if any('device memory differs' in w for w, _ in ev) else 1, len(sc.sm.lines), sc, ev))
+    found.sort(key=lambda x: x[:2])
+    for _, _, sc, ev in found[:3]:
+        what, details = next(((w, d) for w, d in ev if 'device memory differs' in w), ev[0])
+        ctx.witness(STEP_KEY, 'replies handled by the incoming thread while the application call is between two statements: ' + what,
+                    {'scenario': sc.desc, 'schedule': sc.sm.lines, 'observed': sc.sm.replies}, details=details,
+                    all_violations=[w for w, _ in ev][:6])
+    if found:
+        ctx.note('interleaving search: %d of %d schedules violate the property' % (len(found), len(scs)))
+    return bool(found)
+
+
 def search(ctx):
     rng = ctx.rng
     d9 = replay_d9(ctx)
@@ -1742,6 +2305,8 @@ def search(ctx):
     except Exception as e:
         ctx.note('resend scenarios not run: %s: %s' % (type(e).__name__, e))
     if any(w['key'] == 'resend-link' for w in ctx.witnesses):
+        return
+    if interleaving_search(ctx):
         return
     if systematic_search(ctx):
         return
